@@ -1,5 +1,6 @@
 """C06 — monetary amounts and rates are accepted only as decimals and preserved exactly."""
 from .common import Report
+from . import emit
 from . import accept
 from . import numdate
 from .fieldtab import FieldTab
@@ -22,4 +23,5 @@ def run(F, tier):
     rep.sample({"amount_types": [(t.split("::")[-1], f, c) for t, f, c in numdate.amount_types(ft)]})
     accept.u6(rep, F, "amount")
     accept.u7(rep, F, "amount")
+    emit.e1(rep, F, "amount")
     return rep
